@@ -127,6 +127,24 @@ var xUnits = []xUnit{
 		Writer: &xWriter{Type: "list (list N)", Prims: map[string]xPrim{"t.handleConn": {"go_deliver", []int{1}}}},
 		Funcs:  map[string]xOracle{"t.server.protocol.ParsePackage": {"parse_package", "list N -> Z * Z"}},
 		Ignore: []string{`TLOG.Errorf("parse package error %s %v", conn.RemoteAddr(), err)`}},
+	// C10: what Protocol.Invoke / InvokeTimeout put into the response (request echo, timeout and error answers)
+	{Name: "tr_Error_Error", Dir: "tars", Func: "Error.Error", Recv: true},
+	{Name: "tr_Invoke_rsp_init", Dir: "tars", Func: "Protocol.Invoke",
+		From: "rspPackage := requestf.ResponsePacket{}", To: "rspPackage := requestf.ResponsePacket{}", Outs: []string{"rspPackage"}},
+	{Name: "tr_InvokeTimeout_rsp_init", Dir: "tars", Func: "Protocol.InvokeTimeout",
+		From: "^", To: "rspPackage := requestf.ResponsePacket{}", Outs: []string{"rspPackage"}},
+	{Name: "tr_Invoke_identity", Dir: "tars", Func: "Protocol.Invoke",
+		From: "rspPackage.IVersion = reqPackage.IVersion", To: "rspPackage.IRequestId = reqPackage.IRequestId", Outs: []string{"rspPackage"}},
+	{Name: "tr_Invoke_queue_timeout", Dir: "tars", Func: "Protocol.Invoke", Deep: true,
+		From: "rspPackage.IRet = basef.TARSSERVERQUEUETIMEOUT", To: `rspPackage.SResultDesc = "server invoke timeout"`, Outs: []string{"rspPackage"}},
+	{Name: "tr_Invoke_error", Dir: "tars", Func: "Protocol.Invoke", Deep: true,
+		From: "rspPackage.IRet = 1", To: "if tarsErr, ok := err.(*Error); ok {", Outs: []string{"rspPackage"}, After: []string{},
+		Oracles: map[string]xOracle{"err.Error()": {"err_text", "list N"}, "err.(*Error)": {"err_is_tars", "bool"}, "tarsErr.Code": {"err_code", "Z"}}},
+	{Name: "tr_Invoke_ptype", Dir: "tars", Func: "Protocol.Invoke",
+		From: "rspPackage.CPacketType = reqPackage.CPacketType", To: "rspPackage.CPacketType = reqPackage.CPacketType", Outs: []string{"rspPackage"}},
+	{Name: "tr_InvokeTimeout_fill", Dir: "tars", Func: "Protocol.InvokeTimeout",
+		From: "if reqPackage.CPacketType == basef.TARSONEWAY {", To: `rspPackage.SResultDesc = "server invoke timeout"`, Outs: []string{"rspPackage"},
+		After: []string{"return s.rsp2Byte(&rspPackage)"}},
 	{Name: "tr_cli_recv_chunk", Dir: "tars/transport", Func: "connection.recv", Deep: true, Fuel: true,
 		From: "currBuffer = append(currBuffer, buffer[:n]...)", To: "for {", Outs: []string{"currBuffer"}, After: []string{}, Fresh: []string{"currBuffer"},
 		Writer: &xWriter{Type: "list (list N)", Prims: map[string]xPrim{"c.client.protocol.Recv": {"go_deliver", []int{0}}}},
@@ -502,6 +520,8 @@ func xlateUnit(root string, u *xUnit, units []xUnit, ld *xLoader, records map[st
 					list = n.List
 				case *ast.CaseClause:
 					list = n.Body
+				case *ast.CommClause:
+					list = n.Body
 				}
 				hasF, hasT := false, false
 				for _, st := range list {
@@ -564,6 +584,11 @@ func xlateUnit(root string, u *xUnit, units []xUnit, ld *xLoader, records map[st
 						if x.src(st) == ig {
 							return false
 						}
+					}
+				}
+				if e, isExpr := n.(ast.Expr); isExpr { // an oracle expression is a parameter as a whole
+					if _, isOracle := u.Oracles[x.src(e)]; isOracle {
+						return false
 					}
 				}
 				if id, ok := n.(*ast.Ident); ok {
@@ -636,6 +661,8 @@ func xlateUnit(root string, u *xUnit, units []xUnit, ld *xLoader, records map[st
 							if id, ok := ie.X.(*ast.Ident); ok {
 								set[x.info.ObjectOf(id)] = true
 							}
+						} else if sv, _ := x.structVar(l); sv != nil {
+							set[sv] = true
 						}
 					}
 				case *ast.IncDecStmt:
@@ -704,8 +731,7 @@ func xlateUnit(root string, u *xUnit, units []xUnit, ld *xLoader, records map[st
 func xRecordDecl(name string, nm *types.Named, x *xl) string {
 	st := nm.Underlying().(*types.Struct)
 	var fs []string
-	for i := 0; i < st.NumFields(); i++ {
-		f := st.Field(i)
+	for _, f := range x.recFields(st) {
 		fs = append(fs, name+"_"+f.Name()+" : "+x.coqType(nil, f.Type()))
 	}
 	return fmt.Sprintf("(* struct %s *)\nRecord %s := { %s }.\n", nm.String(), name, strings.Join(fs, ";\n  "))
